@@ -41,15 +41,20 @@ CLAIMED = {
             "Trusted: as C01; the key tables and tuple order are regenerated from calculate_specificity each run; the text scanner computing the key (str.count, substring test, quoted-string regexes; ASCII lower-casing) "
             "is a hand model compared with calculate_specificity on every generated rule.",
             "DESIGN.md §5 C09"),
-    'C05': ("Lean 4 theorems over a model of parse_amount / parse_generic_csv on tokenised rows (float() and strptime as oracle parameters) + differential correspondence on generated tables",
+    'C05': ("Lean 4 theorems over a model of parse_amount / parse_generic_csv, CPython's csv tokeniser AND CPython's _strptime (date parsing is inside the model; only float() and the character tables remain parameters) + parse_amount's constants regenerated from source + differential correspondence on generated tables",
             "Proof: parseFile_filterMap (one transaction per accepted row, in order; + parseFile_fatal), parseFile_append, bad_row_neutral, order_preserved, one_per_row, accept_iff "
             "(enough columns ∧ date matches ∧ description ≠ '' ∧ amount parses, finite, ≠ 0), sign_modes, fidelity*, template_filled, amount_roundtrip_us/eu (every integer number of cents × every "
-            "rendering style parses back exactly), for every table, config and oracle.",
+            "rendering style parses back exactly), for every table, config and oracle.  Dates (no date oracle left): strptime_match_is_first (the matcher = regex ordered-choice "
+            "backtracking), strptime_strftimeWith / strptime_strftime (round trip for every FmtOk format, valid date and accepted spelling), strftime_injective, strptime_ok_valid, strptime_ok_in_language, "
+            "bad_date_row_neutral, row_carries_written_date (a row whose date cell is the date written under the row's own format becomes the transaction carrying exactly that date), date_cell_token_cut/whole.  "
+            "amount_tables_are_the_model: parse_amount over the constants REGENERATED from parsers.py (parenthesis pair, currency class, separators) is Csv.cleanAmount.",
             "Trusted: Lean kernel; csv.reader / regex tokenisation and header skipping are taken from the implementation (rows after tokenisation feed the model; checked by the row-wise oracle only); "
-            "float(), strptime, str.format beyond {name}; classification is out of scope here (rules=[]). Genuine defect D5 (nan/inf cells accepted) repaired by a fix: commit; "
+            "float(), CPython's character tables (\\d / IGNORECASE / str.lower, shipped per case for non-ASCII characters), str.format beyond {name}; classification is out of scope here (rules=[]). The strptime model is tied by "
+            "print-back equality of every directive's regex with the installed _strptime, dense (format, text) pairs incl. the unconverted remainder (pins the backtracking order) and the tokens parse_generic_csv actually handed to strptime; "
+            "directives %c %x %X %U %W %G %V %z %Z are an explicit `unsupported` outcome (skipped and counted). Genuine defects D5 (nan/inf cells accepted) and D5c (date cell cut at the first white space under a tab / NBSP separated format) repaired by fix: commits; "
             "d5_unrepaired_accepts_nan is the kernel-checked counterexample on the unrepaired model.",
             "DESIGN.md §5 C05, notes/C05_notes.md"),
-    'C12': ("Lean 4 theorems about JSON string encoding, script-data embedding, merchant ids, placeholder substitution and category sums + render-all-formats oracle and nine correspondence streams",
+    'C12': ("Lean 4 theorems about JSON string encoding, script-data embedding, merchant ids, placeholder substitution, category sums and the per-category typeTotals (report.py's own copy of the classification, REGENERATED from source and proved equal to the regenerated categorize_amount) + render-all-formats oracle and ten correspondence streams",
             "Proof: json_string_roundtrip (every string survives dumps→loads), encode_ascii_only, embed_safe (no text can end the data <script>), embed_decodes, replace_verbatim / placeholder_order, "
             "category_view_sums, merchant_id_injective_partial; kernel-checked counterexamples for the code before each repair (embed_unsafe_unrepaired, merchant_id_not_injective, "
             "placeholder_order_unrepaired_rescans, category_view_loses_merchant, json_summary_disagrees). 'Renders without error' and 'all formats report the same figures' are decided by the "
@@ -103,11 +108,14 @@ CLAIMED = {
             "parameters; total_def/cv_def are over exact int amounts; `by` bucketing and aggregates are tied by correspondence + bucket oracle, not by a Spec theorem. Observations (equal view names merge; a view "
             "variable written with an upper-case letter is unreachable; several of the reference's own example filters are ill-typed) are recorded in notes/C10_notes.md.",
             "DESIGN.md §5 C10, notes/C10_notes.md"),
-    'C14': ("Lean 4 theorems: Python string-literal unescape∘escape = id, modifier expression ≡ modifier check, structure of the generated file, composed with C01/C02's list theorems + both-pipelines oracle on the real code",
+    'C14': ("Lean 4 theorems: the legacy CSV loader and the modifier text parser (load_merchant_rules, parse_pattern_with_modifiers) modelled from the FILE TEXT, regex constants regenerated from modifier_parser.py; Python string-literal unescape∘escape = id, modifier expression ≡ modifier check, structure of the generated file, composed with C01/C02's list theorems + both-pipelines oracle on the real code",
             "Proof: literal_roundtrip (every one-line pattern survives escape → literal decoding), modifier_equiv (every modifier form and combination), per_rule_agree, migration_preserves (merchant/category/subcategory "
             "and tag set equal for every list of CsvRuleOk tuples and every transaction with an amount, under the named oracle laws H_upper/H_empty tested on CPython each run), structure_partial; kernel-checked "
-            "counterexamples for the unrepaired converter (literal_*_pinned, modifier_eq_pinned_counterexample, relative_dropped, relative_breaks_file, empty_row_breaks_file).",
-            "PARTIAL: structure_partial assumes trimmed match/tags lines; no single theorem links Impl.classifyMigrated to the engine (tied by correspondence); parse_pattern_with_modifiers is not modelled. "
+            "counterexamples for the unrepaired converter (literal_*_pinned, modifier_eq_pinned_counterexample, relative_dropped, relative_breaks_file, empty_row_breaks_file).  From the file text (§8): "
+            "modifier_regexes_as_modelled (kernel-decided: the regenerated regex constants / flags / call order = the table the scanners implement), parse_blocks, parse_render / blanks_insensitive (modifiers are read by structure, "
+            "any of the 29 \\s blanks at every site), parse_no_trailing_bracket, parse_shape / parse_ok_prefix / parse_error_local, comment_lines_inert, crlf_is_lf, load_written_table / load_written_std / row_local (one rule per "
+            "row, in file order), moderr_row_keeps_cell, migration_preserves_from_file (the preservation theorem for every file text the loader accepts).",
+            "PARTIAL: structure_partial assumes trimmed match/tags lines; no single theorem links Impl.classifyMigrated to the engine (tied by correspondence); float() of a threshold text, non-ASCII digits and sys.get_int_max_str_digits are parameters of the loader model (Legacy.Oracles). "
             "Known findings D14c (relative dates inexpressible), D14d (pattern that also evaluates as an expression), D14f (untrimmed names), D14g (tags with , ( )), D14h (ß/(?-i:)) are listed with narrow classifiers; "
             "D14a/b/e repaired by fix: commits.",
             "DESIGN.md §5 C14, notes/C14_notes.md"),
@@ -137,14 +145,16 @@ CLAIMED = {
             "sequences (3–12 ops over four rule files, collision-prone expression pairs) in one process vs os.fork from a pristine interpreter after every classify/evaluate, plus the symbolic-world "
             "correspondence of which load an answer comes from; frame (rules / rows / transaction unchanged) by deep copies on the implementation. Defect D7 repaired by a fix: commit.",
             "DESIGN.md §5 C07"),
-    'C11': ("Executable Lean composition of the parser, transform, engine and totals models (`pipeline` op) + Lean composition laws + end-to-end correspondence with `python -m tally up` in fresh processes",
+    'C11': ("Executable Lean composition STARTING AT THE LOADED SETTINGS OBJECT (settings resolution: resolve_source_format, load_config, cmd_run's plan and reader arguments modelled; constants regenerated from source) of the parser, transform, engine and totals models + Lean composition laws + end-to-end correspondence with `python -m tally up` in fresh processes",
             "Proof: silent_source_neutral (a supplemental / missing / empty source leaves the report exactly as it is), source_local (the figures are those of the report without source s plus those of s alone), "
             "setting_local, source_order_irrelevant, report_count — for ARBITRARY per-source parse-and-classify functions, from C06's permutation and partition theorems; upLoop_eq_composition / up_report_eq_runUp "
             "(the modelled cmd_run loop IS classify ∘ concat ∘ parse and its report IS runUp, for EVERY classifier: .rules engine, legacy CSV tuple loop, no rules), up_source_local, up_silent_source_neutral; "
             "legacy_plain_ignores_supplemental / legacy_supplemental_query_only (a legacy budget without expression-shaped Pattern cells never reads the supplemental rows; kernel-checked counterexample "
             "when one cell is expression-shaped); transform_sees_no_supplemental. The executable model Pipeline.upLoop ∘ Pipeline.classifyRow (driver op `pipeline`) reproduces `tally up --format json` "
-            "(merchants, categories, tags, counts exactly; money to the cent) on generated budgets of all three rule kinds.",
-            "PARTIAL: argparse, YAML loading, path resolution and printing are exercised end to end but not modelled; tokenisation is taken from the implementation (as C05); a legacy CSV rule file is LOADED by "
+            "(merchants, categories, tags, counts exactly; money to the cent) on generated budgets of all three rule kinds.  Settings resolution (Model/Config, PipelineCfg.upFromSettings): default_* (an absent key = its "
+            "documented default, errors included), rule_mode_spec / rule_mode_never_an_error, rules_file_selection / configured_missing_never_legacy, source_ok_iff / load_ok_iff / bad_source_aborts_load, plan_source_local / "
+            "plan_toplevel_local / plan_quiet_irrelevant, settings_report_eq_composition / settings_report_eq_runUp (report(settings) = totals(classify(concat(parse(planSources(resolveConfig settings)))))), settings_source_local.",
+            "PARTIAL: argparse, yaml.safe_load and printing are exercised end to end but not modelled (the settings object AS LOADED is the model's input; posixpath join/dirname/normpath are modelled); genuine defect F11-name (a nameless source killed a run without --quiet) repaired by a fix: commit; tokenisation is taken from the implementation (as C05); a legacy CSV rule file is LOADED by "
             "the implementation (get_all_rules: csv.DictReader + parse_pattern_with_modifiers, as C14) and its tuples are classified by the model (Pipeline.classifyLegacy: _is_expression_pattern, evaluator, "
             "regex oracle on the upper-cased description, Migrate.checkAll on exact doubles, _resolve_dynamic_tags, Rules.legacy); float rounding of `amount - v` in [amount=v] is modelled away (as C14); figures compared to the cent.",
             "DESIGN.md §5 C11"),
